@@ -320,7 +320,7 @@ def parse_shim(path):
 
 
 def run_breadlog(built, box, config, check=False, cwd=None, rules=None, shim=False, trace=False,
-                 strace=False, timeout=120, env_extra=None, tmpdir=None, cfg_arg=None, async_signal=None, stdio_ops=False):
+                 strace=False, timeout=120, env_extra=None, tmpdir=None, cfg_arg=None, async_signal=None, stdio_ops=False, stdin_tty=False):
     """Run the real binary once. config: absolute path of the yaml (cfg_arg overrides what is passed)."""
     argv = [built.path, "-c", cfg_arg or config]
     if check:
@@ -353,8 +353,14 @@ def run_breadlog(built, box, config, check=False, cwd=None, rules=None, shim=Fal
         full = ["strace", "-f", "-y", "-qq", "-s", "0", "-o", stracelog] + argv
     t0 = time.time()
     r0 = resource.getrusage(resource.RUSAGE_CHILDREN)
+    pty_fds = None
+    if stdin_tty:
+        import pty
+        pty_fds = pty.openpty()      # an interactive invocation: stdin is a terminal
     p = subprocess.Popen(full, cwd=cwd or box.proj, env=env, stdout=subprocess.PIPE, stderr=subprocess.PIPE,
-                         stdin=subprocess.DEVNULL)
+                         stdin=(pty_fds[1] if pty_fds else subprocess.DEVNULL))
+    if pty_fds:
+        os.close(pty_fds[1])
     rec.timed_out = False
     try:
         if async_signal:
@@ -373,6 +379,8 @@ def run_breadlog(built, box, config, check=False, cwd=None, rules=None, shim=Fal
         rec.timed_out = True
         p.kill()
         o, e = p.communicate()
+    if pty_fds:
+        os.close(pty_fds[0])
     r1 = resource.getrusage(resource.RUSAGE_CHILDREN)
     rec.wall = time.time() - t0
     rec.cpu = (r1.ru_utime + r1.ru_stime) - (r0.ru_utime + r0.ru_stime)
